@@ -195,7 +195,9 @@ def gen_cmb(ctx):
     tied, alone = [], []
     def add(T, ops, n):
         line = "%s cmb %d %s" % (AREA, T, ",".join(ops))
-        (tied if (n <= 2100 or ctx.tier == "thorough") else alone).append(line)
+        # quick tier: the model runs the cases just above the boundary 1024 (a few seconds each); the others are judged by
+        # the predicate alone; thorough tier: everything is tied
+        (tied if (n == 1025 or ctx.tier == "thorough") else alone).append(line)
     T = 10
     for n in (1023, 1024, 1025, 1026, 2048, 2049, 5000):
         # all seen at one instant; swept just before, at and after the expiry instant; then seen again (new queues)
@@ -211,7 +213,7 @@ def gen_cmb(ctx):
         add(T, ["S0-%d@0:1" % (n - 1)] + ["s%d@%d" % (a, 6) for a in busy] + ["e10"] + ["s%d@%d" % (a, 12) for a in busy[:2]] + ["e16", "e22"], n)
     # two generations: the second arrives while the first is still live; each goes at its own sweep, whole
     n = rng.choice([1025, 1500, 2048])
-    add(T, ["S0-%d@0:1" % (n - 1), "S%d-%d@5:1" % (n, 2 * n - 1), "e10", "e14", "e15"], 2 * n)
+    add(T, ["S0-%d@0:1" % (n - 1), "S%d-%d@5:1" % (n, 2 * n - 1), "e10", "e14", "e15"], 2 * n + 1)
     return tied, alone
 
 
@@ -810,16 +812,17 @@ def prop_redial(line, impl, model):
         return "double-close: a carrier was closed more than once: %s" % closes
     if len(opn) > 1:
         return "unclosed: more than one carrier left open: %s" % opn
-    # "closes every carrier it obtained": the adapter has ended (Close returned, or a dial failed) and everything is
-    # settled with no dial pending: every carrier it was handed is closed, or (carriers whose Close takes time) the
-    # adapter's Close() call on it is waiting for the script -- also the carrier a dial handed over AFTER Close()
-    if ended and not dialing:
+    # "closes every carrier it obtained": the adapter has ended (Close returned, or a dial failed), no dial is pending
+    # and NONE of its goroutines is left (so no exchange is still waiting for the carrier's pending ReadFrom/WriteTo to
+    # return, and no Close() call of the dial loop is waiting for the script): every carrier it was handed must be
+    # closed -- also the carrier a dial handed over AFTER Close() was called
+    if ended and not dialing and left == 0:
         stuck = [k for k in opn if k not in pend]
         if stuck:
             after_close = any(t == "C" for t in toks) and toks.index("C") < len(toks) - 1 and \
                 any(t == "D1" and r != "n" for t, r in list(zip(toks, ans))[toks.index("C") + 1:])
             return ("carrier-left-open: carrier(s) %s obtained from dialContext were never closed: the adapter has ended (%s), no dial "
-                    "is pending, no Close() call on them is in progress%s" % (
+                    "is pending, none of its goroutines is left%s" % (
                         ",".join(stuck), "Close" if "C" in toks else "dial failure",
                         "; the carrier was handed over by a dial that was in progress when Close() was called" if after_close else ""))
     if left > (1 if (dialing or opn) else 0) + 2 * len(opn):
